@@ -277,8 +277,40 @@ Proof.
 Qed.
 
 (* ---------- the central theorem (partial: the guard excludes F23) ---------- *)
+Lemma url_spec_blank v p ch w o : url_spec v p ch w (blank_raw o) = url_spec v p ch w o.
+Proof. destruct o; reflexivity. Qed.
+Lemma form_spec_blank red w o : form_spec red w (blank_raw o) = form_spec red w o.
+Proof. destruct o; reflexivity. Qed.
+
+Lemma flow_produced_response rt st ss :
+  (String.eqb rt "code" || (String.eqb rt "id_token token" || String.eqb rt "id_token")) = true ->
+  produced (flow_response rt st ss) = flow_produced rt st ss
+  /\ is_error (flow_response rt st ss) = false.
+Proof.
+  unfold flow_response, flow_produced. intros H.
+  destruct (String.eqb rt "code"); [split; reflexivity|]. cbn [orb] in H.
+  destruct (String.eqb rt "id_token token") eqn:E1.
+  - apply String.eqb_eq in E1; subst rt. split; reflexivity.
+  - cbn [orb] in H. rewrite H. split; reflexivity.
+Qed.
+
 Lemma strip_idem i : strip (strip i) = strip i.
 Proof. induction i; try reflexivity. exact IHi2. Qed.
+
+Lemma spec_flow red p rt rm st ss :
+  wf_base (IFlow red p rt rm st ss) = true ->
+  spec_base (IFlow red p rt rm st ss) (model_base (IFlow red p rt rm st ss)) = true.
+Proof.
+  cbn [wf_base spec_base model_base]. intros Hwf.
+    apply andb_true_iff in Hwf as [Hrt Hwf].
+    assert (Hrt' : (String.eqb rt "code" || (String.eqb rt "id_token token" || String.eqb rt "id_token")) = true).
+    { apply orb_true_iff in Hrt as [-> | Hrt]; [reflexivity|].
+      apply andb_true_iff in Hrt as [-> _]. apply orb_true_r. }
+    destruct (flow_produced_response rt st ss Hrt') as [Hp He]. rewrite <- Hp.
+    destruct (String.eqb rm "form_post").
+    - apply andb_true_iff in Hwf as [Hs Hc]. rewrite form_spec_blank. now apply form_spec_model.
+    - destruct p as [u|]; [|reflexivity]. rewrite url_spec_blank. apply url_spec_redirect, Hwf.
+Qed.
 
 Theorem history_independent prev n i :
   model (IAfter prev n i) = model i /\ (forall o, spec (IAfter prev n i) o = spec i o).
@@ -287,7 +319,8 @@ Proof. split; reflexivity. Qed.
 Theorem spec_model_partial i : wf i = true -> spec i (model i) = true.
 Proof.
   unfold wf, spec, model. generalize (strip i). clear i. intros i.
-  destruct i as [red [u|] rt rm r | red r | red [u|] rt rm c st ss | red [u|] rt rm e d st ss dis | prev n i'];
+  destruct i as [red [u|] rt rm r | red r | red [u|] rt rm c st ss | red [u|] rt rm e d st ss dis
+                 | red p rt rm st ss | prev n i']; try apply spec_flow;
     cbn [wf_base spec_base model_base]; intros Hwf; try reflexivity; try discriminate Hwf.
   - apply url_spec_model, Hwf.
   - apply andb_true_iff in Hwf as [Hwf He]. apply andb_true_iff in Hwf as [Hs Hc].
